@@ -78,22 +78,50 @@ def _mpfr_eval(
     return mpfr_call(gmp_fn, gmp_args, prec=prec, n=n)
 
 
+def _composed(inner: Callable[[], gmp.mpfr], outer: Callable[[gmp.mpfr], gmp.mpfr]):
+    """
+    Evaluates `outer(inner())` under the current MPFR context as if the
+    irrational value `inner()` were exact, so that the result and
+    its ternary value (`rc`) are those of a single rounding.
+
+    Rounding `inner()` to the working precision first would lose the digits
+    that decide the sticky bit (and an exact `outer`, like halving, would
+    even report an exact result).  Following Ziv's strategy, `inner()` is
+    instead enclosed between its roundings down and up at an extended
+    precision: once both ends produce the same inexact result, so does
+    the exact value.  This requires `outer` to be a single monotonic operation
+    and `inner` to be a composition of increasing operations.
+    """
+    def fn():
+        ctx = gmp.get_context()
+        extra = 32
+        while True:
+            with gmp.context(ctx, precision=ctx.precision + extra, round=gmp.RoundDown):
+                lo = inner()
+            with gmp.context(ctx, precision=ctx.precision + extra, round=gmp.RoundUp):
+                hi = inner()
+            x, y = outer(lo), outer(hi)
+            if x == y and x.rc != 0 and y.rc != 0:
+                return x
+            extra *= 2
+    return fn
+
+
 # From `titanfp` package
-# TODO: some of these are unsafe
 _constant_exprs: dict[_Constant, Callable[[], gmp.mpfr]] = {
     _Constant.E : lambda : gmp.exp(1),
-    _Constant.LOG2E : lambda: gmp.log2(gmp.exp(1)), # TODO: may be inaccurate
-    _Constant.LOG10E : lambda: gmp.log10(gmp.exp(1)), # TODO: may be inaccurate
+    _Constant.LOG2E : _composed(lambda: gmp.exp(1), gmp.log2),
+    _Constant.LOG10E : _composed(lambda: gmp.exp(1), gmp.log10),
     _Constant.LN2 : gmp.const_log2,
     _Constant.LN10 : lambda: gmp.log(10),
     _Constant.PI : gmp.const_pi,
-    _Constant.PI_2 : lambda: gmp.const_pi() / 2, # division by 2 is exact
-    _Constant.PI_4 : lambda: gmp.const_pi() / 4, # division by 4 is exact
-    _Constant.M_1_PI : lambda: 1 / gmp.const_pi(), # TODO: may be inaccurate
-    _Constant.M_2_PI : lambda: 2 / gmp.const_pi(), # TODO: may be inaccurate
-    _Constant.M_2_SQRTPI : lambda: 2 / gmp.sqrt(gmp.const_pi()), # TODO: may be inaccurate
+    _Constant.PI_2 : _composed(gmp.const_pi, lambda x: x / 2),
+    _Constant.PI_4 : _composed(gmp.const_pi, lambda x: x / 4),
+    _Constant.M_1_PI : _composed(gmp.const_pi, lambda x: 1 / x),
+    _Constant.M_2_PI : _composed(gmp.const_pi, lambda x: 2 / x),
+    _Constant.M_2_SQRTPI : _composed(lambda: gmp.sqrt(gmp.const_pi()), lambda x: 2 / x),
     _Constant.SQRT2: lambda: gmp.sqrt(2),
-    _Constant.SQRT1_2: lambda: gmp.sqrt(gmp.div(gmp.mpfr(1), gmp.mpfr(2))),
+    _Constant.SQRT1_2: lambda: gmp.sqrt(gmp.div(gmp.mpfr(1), gmp.mpfr(2))), # 1/2 is exact
 }
 
 
